@@ -52,7 +52,10 @@ CAUSE, i.e. a fact about the PRE-state and the event, not only the shape of the 
 * `hk`: the record the tick started with was timed out at `now` AND `should_attempt_reconnect(now)` held, and
   housekeeping started the reconnect (attempt stamped `now`, not connected, phase registering:
   `reset_for_reconnect`, or `mark_for_recovery` when the socket re-creation failed);
-* `setCfg`, `crit`, `failNext`, `failBind`, `stamp`, `syncTimeout`: never. -/
+* `setCfg`, `crit`, `failNext`, `failBind`, `stamp`, `syncTimeout`: never;
+* `reload`: not an event of the INDEX-based walk (`step_link` excludes it, `hnr`): a reload discards the whole
+  queue of every link whose address is no longer desired, together with the link — the cause
+  `Props/SysReload.lean: C01_reload_accounting` states. -/
 def LossCause (s : Sys F) (ev : Ev) (i : Nat) (l l' : FLink F) : Prop :=
   match ev with
   | .client now pkt => FailedSendReset s.failNext l l' ∧
@@ -88,13 +91,14 @@ theorem linkFx_of_frame {cause : Prop} {l l' : FLink F} (hc : l'.core.connId = l
 `i` keeps its conn id; its queue grows by exactly `appended s ev i` at the end and then is either
 held, or put on the wire whole, in order, byte for byte (`dataWire` for its conn id), or discarded
 with a `LossCause`; the probe counter advances exactly when `consulted`. -/
-theorem step_link (s : Sys F) (ev : Ev) (hnd : (ids s.links).Nodup) :
+theorem step_link (s : Sys F) (ev : Ev) (hnd : (ids s.links).Nodup) (hnr : ev.isReload = false) :
     (step s ev).1.links.length = s.links.length ∧
     ∀ (i : Nat) (l : FLink F), s.links[i]? = some l → ∃ l', (step s ev).1.links[i]? = some l' ∧
       LinkFx (LossCause s ev i l l') (appended s ev i) l l' (dataWire ev (step s ev).2 l.core.connId) ∧
       ProbeFx (consulted s ev i = true) l l' ∧
       (appended s ev i = [] → l'.queue = l.queue ∨ l'.queue = []) := by
   cases ev with
+  | reload rnow raddrs routs => cases hnr
   | client now pkt =>
     obtain ⟨h1, -, -, -, -, -, -, h8⟩ := client_links s pkt now hnd
     refine ⟨h1, fun i l hl => ?_⟩
@@ -196,15 +200,16 @@ theorem ids_eq_of_get {ls ls' : List (FLink F)} (hlen : ls'.length = ls.length)
     obtain ⟨l', h1, h2⟩ := h i l hl
     rw [h1]; simp [h2]
 
-theorem step_ids (s : Sys F) (ev : Ev) (hnd : (ids s.links).Nodup) : ids (step s ev).1.links = ids s.links := by
-  obtain ⟨h1, h2⟩ := step_link s ev hnd
+theorem step_ids (s : Sys F) (ev : Ev) (hnd : (ids s.links).Nodup) (hnr : ev.isReload = false) :
+    ids (step s ev).1.links = ids s.links := by
+  obtain ⟨h1, h2⟩ := step_link s ev hnd hnr
   exact ids_eq_of_get h1 fun i l hl => by
     obtain ⟨l', g1, g2, -⟩ := h2 i l hl
     exact ⟨l', g1, g2.1⟩
 
-theorem Inv.step {s : Sys F} (h : Inv s) (ev : Ev) : Inv (step s ev).1 := by
-  obtain ⟨h1, h2⟩ := step_link s ev h.nodup
-  refine ⟨by rw [step_ids s ev h.nodup]; exact h.nodup, ?_⟩
+theorem Inv.step {s : Sys F} (h : Inv s) (ev : Ev) (hnr : ev.isReload = false) : Inv (step s ev).1 := by
+  obtain ⟨h1, h2⟩ := step_link s ev h.nodup hnr
+  refine ⟨by rw [step_ids s ev h.nodup hnr]; exact h.nodup, ?_⟩
   intro l' hl'
   obtain ⟨i, hi, hget⟩ := List.getElem_of_mem hl'
   have hi' : i < s.links.length := by omega
@@ -228,10 +233,12 @@ def run (s : Sys F) : List Ev → Sys F × List Out
   | [] => (s, [])
   | ev :: evs => ((run (step s ev).1 evs).1, (step s ev).2 :: (run (step s ev).1 evs).2)
 
-theorem Inv.run {s : Sys F} (h : Inv s) (evs : List Ev) : Inv (run s evs).1 := by
+/-- Over runs that keep the link set.  Runs WITH reloads: `Lemmas/ReloadShell.lean` (`Inv.run_reload`, under the
+hypothesis that the drawn conn ids are new). -/
+theorem Inv.run {s : Sys F} (h : Inv s) (evs : List Ev) (hnr : NoReload evs) : Inv (run s evs).1 := by
   induction evs generalizing s with
   | nil => exact h
-  | cons ev evs ih => exact ih (h.step ev)
+  | cons ev evs ih => exact ih (h.step ev hnr.head) hnr.tail
 
 /-- The conn id of link `i` (0 if there is no such link). -/
 def connIdOf (s : Sys F) (i : Nat) : Nat := (s.links[i]?.map (·.core.connId)).getD 0
@@ -267,9 +274,9 @@ def gatedRouted (s : Sys F) : List Ev → Nat → Nat
   | [], _ => 0
   | ev :: evs, i => (if consulted s ev i then 1 else 0) + gatedRouted (step s ev).1 evs i
 
-theorem connIdOf_step (s : Sys F) (ev : Ev) (hnd : (ids s.links).Nodup) (i : Nat) :
+theorem connIdOf_step (s : Sys F) (ev : Ev) (hnd : (ids s.links).Nodup) (hnr : ev.isReload = false) (i : Nat) :
     connIdOf (step s ev).1 i = connIdOf s i := by
-  have := congrArg (fun (x : List Nat) => x[i]?) (step_ids s ev hnd)
+  have := congrArg (fun (x : List Nat) => x[i]?) (step_ids s ev hnd hnr)
   simp only [ids, List.getElem?_map] at this
   unfold connIdOf
   rw [this]
